@@ -250,11 +250,23 @@ func replayFile(path string) error {
 	if err = json.Unmarshal(b, &rf); err != nil {
 		return err
 	}
+	r := newRun(rf.Property, 0, "replay", os.TempDir())
+	var generic struct {
+		Plain string `json:"plain_genome"`
+	}
+	if json.Unmarshal(rf.Input, &generic) == nil && generic.Plain != "" {
+		if _, pf := checkPlainRead(generic.Plain, 1); pf != nil {
+			fmt.Println(pf.What)
+			fmt.Printf("REPLAY-FAILS property=%s key=plain-genome-not-read-back\n", rf.Property)
+		} else {
+			fmt.Printf("REPLAY-PASSES property=%s\n", rf.Property)
+		}
+		return nil
+	}
 	f, ok := replayers[rf.Property]
 	if !ok {
 		return fmt.Errorf("no replayer for %s", rf.Property)
 	}
-	r := newRun(rf.Property, 0, "replay", os.TempDir())
 	if err = f(r, rf.Input); err != nil {
 		return err
 	}
